@@ -136,8 +136,11 @@ class Report:
         if not self.quiet:
             print('%s [%s] %d obligations, %d discharged, %d known findings, %d violations, %d incomplete (%.2fs)' % (
                 self.prop, self.tier, n, disc, len(kf), len(viol), len(self.incomplete), wall))
-            for line in out:
-                print(line)
+            try:
+                for line in out:
+                    print(line)
+            except BrokenPipeError:
+                pass
         self.lines = out
         self.viol, self.kf = viol, kf
         return code
